@@ -127,5 +127,5 @@ func c02Trace(run *vf.Run) {
 	}
 	// code -> spec over arbitrary rule sets: recorded executions of the repository's test profiles, the Core Rule Set and
 	// generated rule sets must be behaviours of Flow.tla (Flow_Trace.tla)
-	FlowTraceStage(run, "profiles", "crs")
+	FlowTraceStage(run, "profiles", "crs", "api")
 }
